@@ -4,10 +4,12 @@ import json
 import os
 import random
 import re
+import time
 import vf
 from checks import dense_common as dc
 
 PROP = "C09"
+DUMP = [] if os.environ.get("C09_DUMP") else None   # debugging aid: every deviation matched to a known finding
 ADD_OPS = dc.INDEX_OPS + dc.RANGE_OPS
 
 
@@ -91,7 +93,7 @@ def m_heap_range_empty(dev):
 
 def m_vector_absent(dev):
     cf = cfg_of(dev["cfg"])
-    return cf["ct"] == "VECTOR" and any(
+    return cf["ct"] == "VECTOR" and any(d["path"].startswith("obs.cols_set") for d in dev["diffs"]) and any(
         a["op"] == "zero_entry" and col(o, a["c"])["v"][a["r"]] == 0 for a, o in steps_of(dev))
 
 
@@ -273,13 +275,19 @@ def main(tier):
     ev = vf.Evidence(PROP, tier)
     fnd = vf.Findings()
     rnd = random.Random(vf.seed())
-    bins = dc.build_replay(tier)
+    t0 = time.time()
+    bins, rec_bins = dc.build_all(tier)
+    vf.log("[c09] build %.1fs" % (time.time() - t0))
     unknown = []
     total_beh = 0
     cfg_names = set()
     quick = tier == "quick"
+    from concurrent.futures import ThreadPoolExecutor
+    with ThreadPoolExecutor(4) as ex:   # the bounded models are independent: at most 4 TLC processes at a time
+        tlc_runs = {part: ex.submit(vf.tlc, module, cfg, 1, None, None, None, 1100, False, "%s-%d" % (part, os.getpid()))
+                    for part, module, cfg, P, NR, comp in models(tier)}
     for part, module, cfg, P, NR, comp in models(tier):
-        r = vf.tlc(module, cfg, timeout=1100)
+        r = tlc_runs[part].result()
         if r.violation:
             p = vf.save_replay(PROP, part + "_model", {"tlc": r.violation})
             vf.violation(PROP, p)
@@ -302,6 +310,8 @@ def main(tier):
                 kw = dict(shards=1, rnd=rnd, walks=(150 if quick else 600), walk_len=8, walk_edges=10,
                           max_edges_per_state=(40 if big else None))
                 tb = comp_tree_banned(g) if comp else None
+                if comp:
+                    kw["tree_banned_keep"] = 3 if quick else 8
                 summ, devs, crashes, nb, nreach = dc.run_replay(g, bl, work, env, ban, tree_banned=tb, **kw)
                 seen = set()
                 known_cfgs = set()
@@ -314,6 +324,8 @@ def main(tier):
                     else:
                         seen.add(fid)
                         known_cfgs.add(d["cfg"])
+                        if DUMP is not None:
+                            DUMP.append(dict(slim(d, part, cname), finding=fid))
                 for c in crashes:
                     unknown.append({"kind": "crash", "part": part, "class": cname, **c})
                 rounds = 1
@@ -349,13 +361,15 @@ def main(tier):
             if len(unknown) > 200:
                 break
         ev.parts[part]["replay"] = rep
+        vf.log("[c09] %s done at %.1fs" % (part, time.time() - t0))
         if g.out[g.init]:
             ev.sample({"part": part, "example_edge": {"act": g.out[g.init][0][0], "to_state_obs": g.obs[g.out[g.init][0][1]]}}, 3)
         if len(unknown) > 200:
             break
     if not unknown:
-        rejected = dc.record_and_validate(ev, fnd, tier, MATCHERS_TRACE)
+        rejected = dc.record_and_validate(ev, fnd, tier, MATCHERS_TRACE, bins=rec_bins)
         unknown += rejected
+        vf.log("[c09] traces done at %.1fs" % (time.time() - t0))
     ev.cov["evaluations"] = total_beh
     ev.cov["distinct_nontrivial"] = ev.cov["states"]
     ev.cov["exhaustive"] = not any(p.get("graph_edges", 0) > 120000 for p in ev.parts.values())
@@ -369,6 +383,8 @@ def main(tier):
                       "matrix with lazy swaps are rows the matrix knows (reserving constructor or an inserted column), except "
                       "for swap_rows; source and target of an addition differ"]
     fnd.report(PROP)
+    if DUMP is not None:
+        json.dump(DUMP, open(os.environ["C09_DUMP"], "w"))
     if unknown:
         ev.violations = len(unknown)
         p = vf.save_replay(PROP, "deviations", unknown[:60])
